@@ -32,7 +32,7 @@ for d in /verif/seeded/*/; do
       rm -f $dst/$(basename $demo)
     fi
   fi
-  needs=$(sed -n '1,12p' $d/NOTES.md | tr '\n' ' ' | sed 's/"/\\"/g' | cut -c1-600)
+  needs=$(sed -n '1,12p' $d/NOTES.md | python3 -c "import sys,json; print(json.dumps(' '.join(sys.stdin.read().split())[:600])[1:-1])")
   cat > $d/meta.json <<EOM
 {"id": "$id", "property": "$prop", "patch_applies_to_HEAD": "$applies", "builds_with_and_without_tag": "$builds",
  "existing_suite_with_change": "$suite", "demonstration_without_change": "$demo_without", "demonstration_with_change": "$demo_with",
